@@ -15,6 +15,9 @@ import OFV.Proofs.C01Majorana
 import OFV.Proofs.C01Hom
 import OFV.Proofs.SpecCAR
 import OFV.Proofs.SpecBoson
+import OFV.Proofs.C01Program
+import OFV.Proofs.C01Expr
+import OFV.Proofs.C01ExprInst
 
 namespace OFV.C01
 open OFV OFV.Spec OFV.Generated OFV.Model
@@ -56,7 +59,6 @@ theorem simplifyQubit_sound (t : Term) (ht : ActionsOk t) (s : Nat) :
     have : t = [] := by rw [hst] at hperm; exact hperm.symm.eq_nil
     subst this
     simp [actPTerm, GQ.ipow]
-    decide +kernel
   | cons l rest =>
     have hok : ActionsOk (l :: rest) := by
       intro f hf
@@ -347,5 +349,200 @@ theorem spec_fermion_car (i j a b s : Nat) (x : Option (Nat × Nat)) :
 example : ExactAdd GQ.eqTol [([(0, 1)], 1)] [([(0, 1)], -1), ([(2, 3)], GQ.I)] := by
   refine ⟨fun _ => by decide +kernel, fun h => ?_, trivial⟩
   exact absurd h (by decide +kernel)
+
+/-! ### expression trees: the whole arithmetic at once
+
+`Spec.Expr` is the type of finite expression trees over `+`, `-`, `*`, scalar `*` and `**` with
+dictionaries of terms at the leaves; `Expr.apply alg e` is the linear map on formal sums of basis states the
+Spec assigns to the tree (composition for `*`, iteration for `**`), `ExprHom.evalM tol cls e` is what the
+Model of the dunder methods computes bottom-up (`iadd`, `isub`, `mulOp`, `smul`, `powOp`), and
+`ExprHom.pair w g = Σ_{(s,c) ∈ w} c · g s` pairs a formal sum with a functional on basis states.
+`ExprHom.Exact tol cls valid e` is the exact regime of the tree: admissible keys at the leaves and every
+`+`/`-` node exact (`ExactAdd`). -/
+
+open ExprHom in
+/-- **The Spec reading of every expression tree is linear** (every algebra, every tree, every formal sum). -/
+theorem expr_spec_linear (alg : Alg) (e : Expr) (g : St → GQ) (v : GV) :
+    pair (e.apply alg v) g = (v.map fun p => p.2 * pair (e.apply alg [(p.1, 1)]) g).sum :=
+  apply_linear alg e g v
+
+open ExprHom in
+/-- QubitOperator meets the requirements of the tree theorem: `_simplify` (sort, Pauli table, identity
+removal) preserves the action up to the returned factor, concatenation is composition. -/
+theorem sound_qubit : Sound .qubit .qubit ActionsOk normBit where
+  act_nil := act_nil_qubit
+  act_norm := fun _ _ => rfl
+  act_append := act_append_qubit
+  valid_nil := fun f hf => by simp at hf
+  valid_append := actionsOk_append
+  valid_simplify := simplifyQubit_actionsOk
+  simplify_sound := fun t ht s => by
+    obtain ⟨h1, h2⟩ := simplifyQubit_sound t ht (maskOf s)
+    have e : simplify .qubit t = simplifyQubit t := rfl
+    rw [e]
+    simp only [actTerm, Option.map_some]
+    rw [h1, h2]
+
+open ExprHom in
+/-- IsingOperator (terms of `Z`s, evaluated in the qubit algebra) meets them too. -/
+theorem sound_ising : Sound .qubit .ising AllZ normBit where
+  act_nil := act_nil_qubit
+  act_norm := fun _ _ => rfl
+  act_append := act_append_qubit
+  valid_nil := fun f hf => by simp at hf
+  valid_append := allZ_append
+  valid_simplify := fun t _ => allZ_zt _
+  simplify_sound := fun t ht s => by
+    obtain ⟨h1, h2⟩ := simplifyIsing_sound t ht (maskOf s)
+    have e : simplify .ising t = simplifyIsing t := rfl
+    rw [e]
+    simp only [actTerm, Option.map_some]
+    rw [h1, h2, GQ.one_mul']
+
+open ExprHom in
+/-- FermionOperator: `_simplify` is the identity. -/
+theorem sound_fermion : Sound .fermion .fermion (fun _ => True) normBit where
+  act_nil := act_nil_fermion
+  act_norm := fun _ _ => rfl
+  act_append := act_append_fermion
+  valid_nil := trivial
+  valid_append := fun _ _ _ _ => trivial
+  valid_simplify := fun _ _ => trivial
+  simplify_sound := fun t _ s => by
+    show actTerm .fermion t s = (actTerm .fermion t s).map fun p => ((1 : GQ) * p.1, p.2)
+    cases actTerm .fermion t s with
+    | none => rfl
+    | some p => simp only [Option.map_some, GQ.one_mul']
+
+open ExprHom in
+/-- BosonOperator: the stable index sort preserves the action on every monomial. -/
+theorem sound_boson : Sound .boson .boson (fun _ => True) id where
+  act_nil := fun _ => rfl
+  act_norm := fun _ _ => rfl
+  act_append := fun lt rt s => actTermWith_append actB lt rt s
+  valid_nil := trivial
+  valid_append := fun _ _ _ _ => trivial
+  valid_simplify := fun _ _ => trivial
+  simplify_sound := fun t _ s => by
+    show actTermWith actB t s = (actTermWith actB (sortF t) s).map fun p => ((1 : GQ) * p.1, p.2)
+    rw [actB_sortF]
+    cases actTermWith actB t s with
+    | none => rfl
+    | some p => simp only [Option.map_some, GQ.one_mul']
+
+open ExprHom in
+/-- QuadOperator, for every `ħ`. -/
+theorem sound_quad (hbar : GQ) : Sound (.quad hbar) .quad (fun _ => True) id where
+  act_nil := fun _ => rfl
+  act_norm := fun _ _ => rfl
+  act_append := fun lt rt s => actTermWith_append (actQuad hbar) lt rt s
+  valid_nil := trivial
+  valid_append := fun _ _ _ _ => trivial
+  valid_simplify := fun _ _ => trivial
+  simplify_sound := fun t _ s => by
+    show actTermWith (actQuad hbar) t s =
+      (actTermWith (actQuad hbar) (sortF t) s).map fun p => ((1 : GQ) * p.1, p.2)
+    rw [actQuad_sortF]
+    cases actTermWith (actQuad hbar) t s with
+    | none => rfl
+    | some p => simp only [Option.map_some, GQ.one_mul']
+
+open ExprHom in
+/-- **Operator arithmetic is a homomorphism on whole expression trees.**  For each of the five
+`SymbolicOperator` classes: for every finite expression tree `e` (any shape, any depth, powers included) in
+the exact regime, every basis state `s` and every functional `g` (constant on the representatives of a
+state), the dictionary the Model of `+`, `-`, `*`, scalar `*`, `**` computes bottom-up pairs with `g` exactly as
+the linear map the Spec assigns to the tree does: `⟨g, ⟦e⟧_Spec |s⟩⟩ = Σ_{(τ,c) ∈ evalM e} c · ⟨g, τ|s⟩⟩`.
+All results of the evaluation hold admissible keys again. -/
+theorem expr_hom_all (tol : Rat) (e : Expr) (s : St) (g : St → GQ) :
+    (Exact tol .qubit ActionsOk e → (∀ s, g (normBit s) = g s) →
+      pair (e.apply .qubit [(s, 1)]) g = den (termPair .qubit s g) (evalM tol .qubit e)) ∧
+    (Exact tol .ising AllZ e → (∀ s, g (normBit s) = g s) →
+      pair (e.apply .qubit [(s, 1)]) g = den (termPair .qubit s g) (evalM tol .ising e)) ∧
+    (Exact tol .fermion (fun _ => True) e → (∀ s, g (normBit s) = g s) →
+      pair (e.apply .fermion [(s, 1)]) g = den (termPair .fermion s g) (evalM tol .fermion e)) ∧
+    (Exact tol .boson (fun _ => True) e →
+      pair (e.apply .boson [(s, 1)]) g = den (termPair .boson s g) (evalM tol .boson e)) ∧
+    (∀ hbar, Exact tol .quad (fun _ => True) e →
+      pair (e.apply (.quad hbar) [(s, 1)]) g = den (termPair (.quad hbar) s g) (evalM tol .quad e)) :=
+  ⟨fun he hg => (expr_hom sound_qubit tol e he).2 s g hg,
+   fun he hg => (expr_hom sound_ising tol e he).2 s g hg,
+   fun he hg => (expr_hom sound_fermion tol e he).2 s g hg,
+   fun he => (expr_hom sound_boson tol e he).2 s g (fun _ => rfl),
+   fun hbar he => (expr_hom (sound_quad hbar) tol e he).2 s g (fun _ => rfl)⟩
+
+open ExprHom in
+/-- Qubit and Ising results of a whole tree stay inside the admissible keys (Pauli codes `< 4`, only `Z`). -/
+theorem expr_keys_closed (tol : Rat) (e : Expr) :
+    (Exact tol .qubit ActionsOk e → ∀ k ∈ evalM tol .qubit e, ActionsOk k.1) ∧
+    (Exact tol .ising AllZ e → ∀ k ∈ evalM tol .ising e, AllZ k.1) :=
+  ⟨fun he => (expr_hom sound_qubit tol e he).1, fun he => (expr_hom sound_ising tol e he).1⟩
+
+open ExprHom in
+/-- the matrix-element form for qubits: with `g` the indicator of the basis state `t`, the pairing of the
+tree theorem is `Σ c · ⟨t| τ |m⟩` with the matrix elements `melTermQ` used by the term-level theorems -/
+theorem expr_hom_qubit_mel (tol : Rat) (e : Expr) (he : Exact tol .qubit ActionsOk e) (m t : Nat) :
+    pair (e.apply .qubit [([m], 1)]) (fun x => if maskOf x = t then 1 else 0) =
+      den (melTermQ m t) (evalM tol .qubit e) := by
+  rw [(expr_hom sound_qubit tol e he).2 [m] _ (fun _ => rfl)]
+  congr 1
+  funext τ
+  show (match actTerm .qubit τ [m] with
+    | none => 0
+    | some (k, s') => k * (if maskOf s' = t then 1 else 0)) = _
+  have ha : actTerm .qubit τ [m] = some (GQ.ipow (actPTerm τ m).1, [(actPTerm τ m).2]) := rfl
+  rw [ha]
+  show GQ.ipow (actPTerm τ m).1 * (if maskOf [(actPTerm τ m).2] = t then 1 else 0) = melTermQ m t τ
+  unfold melTermQ
+  by_cases h : (actPTerm τ m).2 = t
+  · have h' : maskOf [(actPTerm τ m).2] = t := h
+    rw [if_pos h', if_pos h]; exact GQ.mul_one' _
+  · have h' : ¬ maskOf [(actPTerm τ m).2] = t := h
+    rw [if_neg h', if_neg h]; exact GQ.mul_zero' _
+
+/- non-vacuity: `((X0 + Z2·i) * X0) ** 2`-shaped tree in the exact regime at the live tolerance -/
+example : ExprHom.Exact GQ.eqTol .qubit ActionsOk
+    (.pow (.mul (.add (.leaf [([(0, 1)], 1)]) (.leaf [([(2, 3)], GQ.I)])) (.leaf [([(0, 1)], 1)])) 2) := by
+  refine ⟨⟨?_, ?_, ?_⟩, ?_⟩
+  · intro e he; simp at he; subst he; intro f hf; simp at hf; subst hf; decide
+  · intro e he; simp at he; subst he; intro f hf; simp at hf; subst hf; decide
+  · refine ⟨fun h => ?_, trivial⟩
+    exact absurd h (by decide +kernel)
+  · intro e he; simp at he; subst he; intro f hf; simp at hf; subst hf; decide
+
+/-! ### programs: aliasing, in-place operators
+
+`Model.exec` is the store semantics of a Python statement over operator objects (variables reference
+objects; `Model/Program.lean`), the same function the correspondence run executes against the implementation
+statement by statement. -/
+
+/-- **No operation changes any operand other than the in-place target**: after any statement every
+existing object other than the one `inPlaceTarget` names (the object bound to `x` for `x op= …`; nothing for
+out-of-place statements and for `MajoranaOperator *= operator`, which rebinds) holds the value it held
+before — whatever aliases the operands have. -/
+theorem exec_frame (tol : Rat) (f : Fam) (s s' : Store) (st : Stmt)
+    (h : exec tol f s st = .ok s') (id : Nat) (o : Op) (ho : s.objs[id]? = some o)
+    (hne : inPlaceTarget f s st ≠ some id) : s'.objs[id]? = some o :=
+  exec_frame_lemma tol f s s' st h id o ho hne
+
+/-- **In-place operators yield the value of their out-of-place forms** — also when the right operand
+aliases the target (`a += a`, `a *= a`): `x op= y` leaves in `x` what `z = x op y` binds to `z`, and one
+succeeds exactly when the other does. -/
+theorem iop_eq_bin (tol : Rat) (f : Fam) (s s1 s2 : Store) (x y z : Nat) (o : BinOp)
+    (h1 : exec tol f s (.iop x o y) = .ok s1) (h2 : exec tol f s (.bin z o x y) = .ok s2)
+    (hz : z < s.vars.length) : s1.val? x = s2.val? z :=
+  iop_eq_bin_lemma tol f s s1 s2 x y z o h1 h2 hz
+
+/-- likewise for a scalar right operand (`*=`, `/=`, `+=`, `-=`), division by zero included -/
+theorem isop_eq_sbin (tol : Rat) (f : Fam) (s s1 s2 : Store) (x z : Nat) (o : ISOp) (c : GQ)
+    (h1 : exec tol f s (.isop x o c) = .ok s1) (h2 : exec tol f s (.sbin z o.toSOp x c) = .ok s2)
+    (hz : z < s.vars.length) : s1.val? x = s2.val? z :=
+  isop_eq_sbin_lemma tol f s s1 s2 x z o c h1 h2 hz
+
+/-- an in-place statement rebinds no variable, so every alias of the target observes the new value -/
+theorem inplace_aliases (tol : Rat) (f : Fam) (s s' : Store) (st : Stmt)
+    (h : exec tol f s st = .ok s') (id : Nat) (ht : inPlaceTarget f s st = some id) :
+    s'.vars = s.vars :=
+  exec_inplace_vars tol f s s' st h id ht
 
 end OFV.C01
